@@ -619,7 +619,7 @@ fn do_oset(line: &str) -> String {
     }
 }
 
-fn oset_run<T: Ord + Clone + std::hash::Hash>(
+fn oset_run<T: Ord + Clone + std::hash::Hash + std::fmt::Debug>(
     ops: &str,
     parse: impl Fn(&str) -> T,
     show: impl Fn(&T) -> String,
@@ -713,6 +713,48 @@ fn oset_run<T: Ord + Clone + std::hash::Hash>(
                 ));
             }
             "len" => out.push(regs[&r].len().to_string()),
+            "clone" => {
+                // a clone is a value of its own: equal now, hashed alike, printed alike, unaffected by what happens
+                // to the original later (checked by the per-operation comparison with the reference set)
+                let s: u32 = w[2].parse().unwrap();
+                let c = regs[&s].clone();
+                if c != regs[&s] || format!("{:?}", c) != format!("{:?}", regs[&s]) || c.partial_cmp(&regs[&s]) != Some(std::cmp::Ordering::Equal) {
+                    out.push("ref-mismatch".into());
+                }
+                let cr = refs[&s].clone();
+                regs.insert(r, c);
+                refs.insert(r, cr);
+                out.push(show_set(&regs[&r]));
+            }
+            "default" => {
+                regs.insert(r, Oset::default());
+                refs.insert(r, BTreeSet::new());
+                out.push(show_set(&regs[&r]));
+            }
+            "empty" => {
+                let a = regs[&r].is_empty();
+                if a != refs[&r].is_empty() || a != (regs[&r].len() == 0) || a != regs[&r].iter().next().is_none() {
+                    out.push("ref-mismatch".into());
+                }
+                out.push(a.to_string());
+            }
+            "nth" => {
+                // through Deref<Target = [T]>: indexing, first, last, binary_search
+                let i: usize = w[2].parse().unwrap();
+                let a = regs[&r].get(i).cloned();
+                let b = refs[&r].iter().nth(i).cloned();
+                if a != b
+                    || regs[&r].first() != refs[&r].iter().next()
+                    || regs[&r].last() != refs[&r].iter().next_back()
+                    || a.as_ref().map(|x| regs[&r].binary_search(x)) != a.as_ref().map(|_| Ok(i))
+                {
+                    out.push("ref-mismatch".into());
+                }
+                match a {
+                    Some(x) => out.push(format!("[{}]", show(&x))),
+                    None => out.push("none".into()),
+                }
+            }
             "cmp" | "eq" => {
                 let s: u32 = w[2].parse().unwrap();
                 if w[0] == "cmp" {
